@@ -321,7 +321,7 @@ func runCheck(ck *Check, tier string, seed int64, replay string, keepEvidence bo
 	env := []string{}
 	for _, e := range os.Environ() {
 		if strings.HasPrefix(e, "GOFLAGS=") || strings.HasPrefix(e, "GOPROXY=") || strings.HasPrefix(e, "GOTOOLCHAIN=") ||
-			strings.HasPrefix(e, "GOSUMDB=") || strings.HasPrefix(e, "VERIF_") || strings.HasPrefix(e, "GORACE=") {
+			strings.HasPrefix(e, "GOSUMDB=") || (strings.HasPrefix(e, "VERIF_") && !strings.HasPrefix(e, "VERIF_DEBUG=")) || strings.HasPrefix(e, "GORACE=") {
 			continue
 		}
 		env = append(env, e)
